@@ -26,7 +26,7 @@ PROP = "C03"
 TITLE = "Radial transforms are analytically self-consistent for all parameters"
 KINDS = ["Becke", "LinearFinite", "Identity", "LinearInfinite", "Exp", "Power", "Hyperbolic", "MultiExp", "Knowles", "Handy", "HandyMod"]
 CLS = {k: k + "RTransform" for k in KINDS}
-REQUIRED_FAMILIES = [CLS[k] for k in KINDS] + ["InverseRTransform", "pinned", "boundary", "construction", "clones", "warnings-as-errors", "option-values"]
+REQUIRED_FAMILIES = [CLS[k] for k in KINDS] + ["InverseRTransform", "pinned", "boundary", "construction", "clones", "warnings-as-errors", "option-values", "nested"]
 REQUIRED_HOOKS = [f"decided:{c}:{m}" for c in list(CLS.values()) + ["InverseRTransform"] for m in ("deriv", "deriv2", "deriv3", "deriv_inverse", "deriv2_inverse", "deriv3_inverse", "roundtrip", "endpoint")]
 BUDGET = {"quick": 900, "thorough": 7200}  # per-worker seconds; expected on 16 idle cores: quick ~10 s, thorough ~3-4 min
 MAX_DISCARD_FRACTION = 0.02
@@ -106,6 +106,15 @@ def cases(tier, seed):
         out.append(("boundary", {"kind": kind, **p, **pos}, 1.5))
         out.append(("boundary", {"kind": kind, **p, "inv": True, **pos}, 1.5))
     # positional vs keyword construction of every class, both values of every boolean flag, b given / learned
+    # transforms built from transforms: InverseRTransform nested to depth 2 (behaves like T) and 3 (behaves like Inverse(T)),
+    # treated as ordinary transform objects by every clause
+    nest = [(k, p) for k, p in construction_sets()]
+    if tier == "thorough":
+        nest += [(k, {**p, "rep": r}) for r in range(2) for k, p in _structured()]
+    for j, (kind, p) in enumerate(nest):
+        for depth in (2, 3):
+            extra = {"clone": roundtrip.KINDS[j % 4]} if j % 3 == 2 else {}
+            out.append(("nested", {"kind": kind, **p, "nest": depth, **extra}, 1.5))
     for kind, p in construction_sets():
         out.append(("construction", {"kind": kind, **p}, 1.0))
         out.append(("clones", {"kind": kind, **p}, 1.0))
@@ -212,7 +221,7 @@ def build(params, rng):
         I.tf = sig.positional(getattr(rt, CLS[kind]), sig.TRANSFORM_ORDER[CLS[kind]], I.args)
     else:
         I.tf = getattr(rt, CLS[kind])(**I.args)
-    if params.get("clone"):
+    if params.get("clone") and not params.get("nest"):
         # a copy / deep copy / pickle round trip is still "the transform that was built with these arguments"
         I.tf = roundtrip.clone(I.tf, params["clone"])
     I.name = CLS[kind] + I.tag
@@ -908,6 +917,9 @@ def run_case(ctx, family, params):
         note["_constructed"] = "positional"
     ctx.case_note("args", note)
     tf = I.tf
+    if family == "nested":
+        _nested(ctx, I, params)
+        return
     if family == "construction":
         _construction(ctx, I)
         return
@@ -1025,6 +1037,111 @@ def _construction(ctx, I):
             mid = arr[3]
             ctx.check("positional-equals-keyword", "BeckeRTransform.find_parameter", res["p"] == res["k"], sig="outputs-differ:find_parameter")
             ctx.check("positional-binds-documented-order", "BeckeRTransform.find_parameter", abs(res["p"] - (radius - rmin) * (1 - mid) / (1 + mid)) <= 1e-12 * abs(res["p"]), sig="find_parameter!=(radius-rmin)(1-x_mid)/(1+x_mid)")
+
+
+def _nested(ctx, I, params):
+    """InverseRTransform(InverseRTransform(T)) (depth 2: the map T itself) and one more level (depth 3: the inverse map), as
+    ordinary transform objects: all interior clauses against numdiff, end points, scalars, buffer reuse, and pointwise equality
+    (values and all derivative methods) with T resp. InverseRTransform(T)."""
+    import grid.rtransform as rt
+
+    depth = params["nest"]
+    T = I.tf
+    note = _note(I)
+    note["_nested_depth"] = depth
+    if params.get("bmode") == "learned" and params.get("clone"):
+        with np.errstate(all="ignore"):
+            T.transform(I.x)  # a clone carries its own copy of the base: let the base learn b before it is copied
+    W = T
+    with ctx.guard("constructible", f"InverseRTransform^{depth}({CLS[I.kind]})"):
+        for _ in range(depth):
+            W = rt.InverseRTransform(W)
+    if W is T:
+        return
+    if params.get("clone"):
+        W = roundtrip.clone(W, params["clone"])
+    like_T = depth % 2 == 0
+    name = "InverseRTransform(" * depth + I.name + ")" * depth
+
+    def admissible_base_points(xb):
+        """The nested wrapper evaluates 1/(1/T'(.)) through x -> T(x) -> T.inverse(...): base points whose image collapses onto a
+        codomain end (r - rmin below the resolution of r), or where T' is 0 / inf, hit the documented ZeroDivisionError of the inner
+        wrapper; they are end points in float64, not interior points."""
+        ok = np.ones(xb.size, dtype=bool)
+        with np.errstate(all="ignore"):
+            cur = np.asarray(xb, dtype=float)
+            for _ in range(2):
+                rr = np.asarray(T.transform(cur), dtype=float).reshape(-1)
+                ok &= np.isfinite(rr) & (rr > I.gb[0]) & (rr < I.gb[1])
+                cur = np.asarray(T.inverse(rr), dtype=float).reshape(-1)
+                d = _flat(T.deriv(cur), cur.size)
+                ok &= np.isfinite(d) & (d != 0) & np.isfinite(cur)
+        return ok
+    # declared domain / codomain
+    dom, cod = (T.domain, T.codomain) if like_T else (T.codomain, T.domain)
+    ok = tuple(map(float, W.domain)) == tuple(map(float, dom)) and tuple(map(float, W.codomain)) == tuple(map(float, cod))
+    ctx.check("inverse-wrapper-domains", name, ok, sig="nested-wrapper-domain/codomain-not-those-of-the-reduced-map", detail={"domain": [float(v) for v in W.domain], "codomain": [float(v) for v in W.codomain], "expected_domain": [float(v) for v in dom]})
+    if like_T:
+        if params.get("bmode") == "learned":
+            with ctx.guard("forward-evaluates", name):
+                W.transform(I.x)  # the base learns b from the first array that reaches it
+        x = I.x[admissible_base_points(I.x)]
+        ctx.count("nested:sample-points-collapsing-onto-an-end", int(I.x.size - x.size))
+        if x.size < 5:
+            ctx.discard("fewer than 5 admissible interior points")
+            return
+        res = check_map(ctx, name, "InverseRTransform", W, x, I.fb, I.gb, I.frac, I.gfrac, I.xscale, I.chunk, note)
+        ref = T
+    else:
+        with np.errstate(all="ignore"):
+            r = np.asarray(T.transform(I.x), dtype=float).reshape(-1)
+        if I.kind in ("LinearInfinite", "Exp", "Power"):
+            r = r[I.x <= float(T.b)] if np.any(I.x <= float(T.b)) else r
+        r = np.unique(r[np.isfinite(r) & (r > I.gb[0]) & (r < I.gb[1])])
+        if r.size:
+            with np.errstate(all="ignore"):
+                r = r[admissible_base_points(np.asarray(T.inverse(r), dtype=float).reshape(-1))]
+        if r.size < 5:
+            ctx.discard("fewer than 5 interior images")
+            return
+        x = r
+        res = check_map(ctx, name, "InverseRTransform", W, x, I.gb, I.fb, I.gfrac, I.frac, float(np.max(np.abs(r))) or 1.0, I.chunk, note)
+        ref = rt.InverseRTransform(T)
+    if res is None:
+        return
+    xv, rv = x[res["vi"]], res["r"][res["vi"]]
+    check_scalars(ctx, name, W, xv, rv)
+    check_buffer_reuse(ctx, name, W, xv, rv)
+    if like_T:
+        check_endpoints(ctx, name, "InverseRTransform", I, W, endpoints(I))
+    else:
+        check_endpoints_inverse(ctx, name, I, W, T)
+    # pointwise equal to the reduced map: values and every derivative / inverse-derivative method
+    worst, wname = 0.0, None
+    for names, arg in ((METHODS_X, xv), (METHODS_R, rv)):
+        for mname in names:
+            a, ea = _outcome(getattr(W, mname), arg, arg.size)
+            b, eb = _outcome(getattr(ref, mname), arg, arg.size)
+            if ea is not None or eb is not None:
+                ctx.check("nested-equals-reduced-map", f"{name}.{mname}", ea is not None and eb is not None and type(ea) is type(eb), sig="raises-differently-from-the-reduced-map", detail={"nested": repr(ea)[:80], "reduced": repr(eb)[:80]})
+                continue
+            with np.errstate(all="ignore"):
+                fin = b[np.isfinite(b)]
+                floor = 1e-3 * float(np.abs(fin).max()) if fin.size else 0.0
+                slack = 100 * max(_noise_max(getattr(W, mname), arg, a), _noise_max(getattr(ref, mname), arg, b))
+                dev = np.abs(a - b) / (1e-8 * np.maximum(np.abs(b), floor) + slack + 1e-300)
+                dev[(a == b) | (np.isnan(a) & np.isnan(b))] = 0.0
+                dev[~np.isfinite(dev)] = np.inf
+            d = float(dev.max()) if dev.size else 0.0
+            if d > 1:
+                j = int(np.argmax(dev))
+                ctx.check("nested-equals-reduced-map", f"{name}.{mname}", d, 1.0, sig="differs-from-the-reduced-map", detail={"x": float(arg[j]), "nested": float(a[j]), "reduced": float(b[j]), "args": note})
+            if d > worst or wname is None:
+                worst, wname = d, mname
+    ctx.check("nested-equals-reduced-map", name, worst if worst <= 1 else 0.0, 1.0, detail={"worst_method": wname})
+    ctx.hit("decided:nested")
+    if not res["any"]:
+        ctx.trivial()
 
 
 def _outputs(tf, x, ends, grids=()):
